@@ -1577,7 +1577,49 @@ def _hex_prefix_is_ascii(fx):
     return ok
 
 
-PREDICATES = {'@next_nonws-filters': _next_nonws_filters, '@to_uint-callers-bound-len': _to_uint_callers_bound_len,
+def _line_bounds_are_boundaries(fx):
+    """The bounds of the line slice in lex::token_location are char boundaries of the parent text whatever that text is: every
+    value that can reach them is 0 or comes from the character iterator (an index it yielded, or that plus the len_utf8 of
+    the character at it).  A non-zero constant (`end = 1`) is a boundary only if the text has a first character of one byte."""
+    f = fx.fns.get('lex::token_location')
+    if f is None:
+        return False
+    ok = False
+    for bb, t in f.calls():
+        c = callee_of(t) or ''
+        if not (c.endswith('ArcStr::substr') or c.endswith('::substr')):
+            continue
+        ok = True
+        for a in t['args'][1:]:
+            e = f.expr_of_operand(a)
+            todo, seen = [e], 0
+            while todo and seen < 400:
+                x = strip(todo.pop())
+                seen += 1
+                if not isinstance(x, tuple):
+                    continue
+                if x[0] == 'const':
+                    if isinstance(x[1], dict) and x[1].get('v') not in (0, None):
+                        return False
+                    continue
+                if x[0] in ('phi',):
+                    todo += list(x[1])
+                elif x[0] == 'agg':
+                    todo += list(x[3])
+                elif x[0] == 'proj' and 'CharIndices' in expr_str(x, -12):
+                    continue
+                elif x[0] == 'bin' and x[1] in ('Add', 'AddWithOverflow') and 'CharIndices' in expr_str(x, -12) and 'len_utf8' in expr_str(x, -12):
+                    continue
+                elif x[0] in ('proj', 'ref', 'cast'):
+                    todo.append(x[1] if x[0] == 'proj' else x[2] if x[0] != 'cast' else x[2])
+                elif x[0] in ('cycle',):
+                    continue
+                else:
+                    return False
+    return ok
+
+
+PREDICATES = {'@next_nonws-filters': _next_nonws_filters, '@line-bounds-are-boundaries': _line_bounds_are_boundaries, '@to_uint-callers-bound-len': _to_uint_callers_bound_len,
               '@hex-prefix-is-ascii': _hex_prefix_is_ascii}
 
 
